@@ -23,6 +23,43 @@ pub fn panic_class(prefix: &str, msg: &str) -> String {
 
 pub fn draw_job(rng: &mut Rng, c: &Corpus) -> Job {
     let k = rng.below(100);
+    if k >= 92 {
+        // generated programs (many symbols and asm blocks, ambiguous mnemonic
+        // prefixes, several files of identical layout, programs on <std>),
+        // as they are and as token-level mutants
+        let mut disk = crate::disk::Disk::new(corpus::PROJ);
+        let root = match rng.below(4) {
+            0 => {
+                disk.add_file("prog.asm", crate::c10::symbol_program(rng));
+                "prog.asm".to_string()
+            }
+            1 => {
+                disk.add_file("ambig.asm", crate::c10::ambiguous_program(rng));
+                "ambig.asm".to_string()
+            }
+            2 => crate::c10::multifile_symbols(rng, &mut disk),
+            _ => {
+                disk.add_file("on_std.asm", crate::c10::std_program(rng));
+                "on_std.asm".to_string()
+            }
+        };
+        let mut name = format!("generated:{}", root);
+        if rng.chance(1, 2) {
+            let path = format!("{}/{}", corpus::PROJ, root);
+            if let Some(crate::disk::Node::File(t)) = disk.nodes.get(&path).cloned() {
+                let m = mutate::draw(rng, &t, &c.texts);
+                disk.add_file(&root, mutate::apply(&t, &m));
+                name = format!("generated-mutant:{}:{:?}", root, m);
+            }
+        }
+        let mut spec = Spec::simple(&root);
+        if rng.chance(1, 2) {
+            spec.groups[0].format = Some(rng.pick(&["symbols", "annotated", "addrspan", "tcgame", "mesen-mlb", "intelhex"]).to_string());
+            spec.groups[0].out = Some("out.txt".to_string());
+        }
+        cmdline::draw_knobs(rng, &mut spec);
+        return Job::from_spec(&name, disk, spec);
+    }
     // half of the draws favour roots that assemble (so that the success side
     // — writes, output faults — is exercised as much as the failure side)
     let ridx = {
